@@ -101,7 +101,7 @@ class Run(object):
         from .index import AnalysisError
         # floors
         for name, r in sorted(self.rules.items()):
-            if r['sites'] < r['floor']:
+            if r['sites'] < r['floor'] and not r['failed']:
                 raise AnalysisError('rule %s matched %d sites, below its floor %d '
                                     '(the rule would pass vacuously)' % (name, r['sites'], r['floor']))
         known = [k for k in load_known()
